@@ -1,5 +1,6 @@
 #![allow(dead_code)]
 mod checks;
+mod client_run;
 mod gen;
 mod handlers;
 mod io;
@@ -20,7 +21,11 @@ fn main() {
     let code = match args.check.as_str() {
         "c01" => checks::server_props::run(Which::C01, &args),
         "c02" => checks::server_props::run(Which::C02, &args),
+        "c03" => checks::c03::run(&args),
+        "c04" => checks::c04::run(&args),
         "c08" => checks::server_props::run(Which::C08, &args),
+        "c11" => checks::c11::run(&args),
+        "c12" => checks::c12::run(&args),
         "c17" => checks::server_props::run(Which::C17, &args),
         other => {
             eprintln!("unknown check {other}");
